@@ -291,8 +291,15 @@ def _run(inp, want_raw=False):
     from breezy import controldir, transport
     from breezy.plugins.upload import cmds
     from dromedary import errors as terrors
-    _state["n"] += 1
-    base = os.path.join(_state["dir"], "s%d" % _state["n"])
+    _state["n"] = _state.get("n", 0) + 1
+    root = _state.get("dir")
+    own = None
+    if not root or not os.path.isdir(root):
+        # called outside setup()/teardown() (shrinking, replay): use and remove a scratch directory of our own
+        import tempfile
+        own = root = tempfile.mkdtemp(prefix="verif-C43-own-")
+    os.environ.setdefault("BRZ_EMAIL", "verif <verif@example.com>")
+    base = os.path.join(root, "s%d" % _state["n"])
     os.makedirs(base)
     try:
         wt = controldir.ControlDir.create_standalone_workingtree(
@@ -347,6 +354,8 @@ def _run(inp, want_raw=False):
         return (out, raw) if want_raw else out
     finally:
         shutil.rmtree(base, ignore_errors=True)
+        if own:
+            shutil.rmtree(own, ignore_errors=True)
 
 
 def impl(inp):
@@ -738,7 +747,7 @@ def _exhaustive_dir():
 def cases(rng, tier):
     yield from _exhaustive_flat()
     yield from _exhaustive_dir()
-    for _ in range(200 if tier == "quick" else 1600):
+    for _ in range(200 if tier == "quick" else 1400):
         yield _random_seq(rng, tier)
 
 
